@@ -41,10 +41,14 @@ MANIFEST = {
             "reach a neighbour's global range; sorting = stable sort by (chromosome index, start, stop); ignored-chromosome filtering "
             "keeps order and ranks. Merge: the shipped rule (merge in concatenated coordinates) is refuted in Lean with the boundary-"
             "touching witness, the repaired per-chromosome rule is proved equal to the per-chromosome single-contig merge. "
+            "Generated obligations: the real clip / extend_to_size are executed on symbolic columns every run and the recorded "
+            "expressions (Gen/C10.lean) are proved equal to the model's kernels with the row's OWN chromosome size; window flanks "
+            "are re-tabulated. "
             "Correspondence: implementation vs Lean model vs Lean spec vs independent Python oracle on every public entry point.",
     "note": "Single-contig operations are specified, not re-verified here (C08). Name lookup through the hash table and "
             "GenomicSequence (indexed FASTA, reverse complement) are covered by the correspondence only.",
-    "technique": "Lean 4 proof (induction over the chromosome list / prefix sums) + differential correspondence with the implementation",
+    "technique": "Lean 4 proof (induction over the chromosome list / prefix sums) + symbolic tracing of straight-line kernels into "
+                 "generated Lean + differential correspondence with the implementation",
     "design": "§6 C10",
 }
 
@@ -63,6 +67,178 @@ def _tmpdir():
                 shutil.rmtree(d, ignore_errors=True)
         atexit.register(_rm)
     return _TMP
+
+
+# ------------------------------------------------------------------ symbolic tracing -> Gen/C10.lean
+
+class NotTraceable(Exception):
+    pass
+
+
+def _lift(x):
+    if isinstance(x, _Sym):
+        return x.expr
+    if isinstance(x, np.ndarray):
+        return ("const", tuple(int(v) for v in x.ravel()))
+    if isinstance(x, (bool, np.bool_)):
+        raise NotTraceable("bool")
+    if isinstance(x, (int, np.integer)):
+        return ("int", int(x))
+    if isinstance(x, str):
+        return ("str", x)
+    raise NotTraceable(type(x).__name__)
+
+
+def _binop(op, rev=False):
+    def f(self, other):
+        a, b = (other, self) if rev else (self, other)
+        return _Sym((op, _lift(a), _lift(b)))
+    return f
+
+
+class _Sym:
+    """a whole column of unknown integers; records the expression the real code builds from it"""
+    __array_priority__ = 1000
+    __hash__ = None
+
+    def __init__(self, expr):
+        self.expr = expr
+    __add__ = _binop("+"); __radd__ = _binop("+", True)
+    __sub__ = _binop("-"); __rsub__ = _binop("-", True)
+    __eq__ = _binop("=="); __ne__ = _binop("!=")
+
+    def ravel(self):
+        return self
+
+    def __len__(self):
+        return 2
+
+    def __bool__(self):
+        raise NotTraceable("bool")
+
+    def __int__(self):
+        raise NotTraceable("int")
+
+    def __index__(self):
+        raise NotTraceable("index")
+
+    def __array_ufunc__(self, ufunc, method, *inputs, **kw):
+        name = {"maximum": "max", "minimum": "min", "add": "+", "subtract": "-", "equal": "=="}.get(ufunc.__name__)
+        if method != "__call__" or name is None or kw:
+            raise NotTraceable(ufunc.__name__)
+        return _Sym((name,) + tuple(_lift(x) for x in inputs))
+
+    def __array_function__(self, func, types, args, kwargs):
+        if func is np.where and len(args) == 3 and not kwargs:
+            return _Sym(("where",) + tuple(_lift(x) for x in args))
+        raise NotTraceable(getattr(func, "__name__", "?"))
+
+
+_TRACE_SIZES = {"c0": 1000003, "c1": 2000003, "c2": 3000017}     # distinctive: a constant in a trace names its chromosome
+
+
+def _trace_kernels():
+    """run the real clip / extend_to_size on symbolic columns (row 0 on c1, row 1 on c0)"""
+    import dataclasses
+    from bionumpy.genomic_data.geometry import Geometry
+    from bionumpy.genomic_data.genomic_intervals import GenomicIntervalsFull
+    from bionumpy.genomic_data.genome_context import GenomeContext
+    from bionumpy.encoded_array import as_encoded_array
+
+    @dataclasses.dataclass
+    class Duck:
+        chromosome: object
+        start: object
+        stop: object
+        strand: object = None
+
+        def __len__(self):
+            return 2
+    ctx = GenomeContext.from_dict(_TRACE_SIZES)
+    chrom = as_encoded_array(["c1", "c0"], ctx.encoding)
+    duck = lambda: Duck(chrom, _Sym("s"), _Sym("e"), _Sym("strand"))
+    out = {}
+    for name, f in (("clipGenome", lambda: GenomicIntervalsFull(duck(), ctx).clip()),
+                    ("clipGeometry", lambda: Geometry(_TRACE_SIZES).clip(duck())),
+                    ("extendGeometry", lambda: Geometry(_TRACE_SIZES).extend_to_size(duck(), _Sym("L")))):
+        try:
+            r = f()
+            out[name] = (_to_lean(r.start.expr), _to_lean(r.stop.expr))
+        except Exception:
+            out[name] = None
+    return out
+
+
+def _to_lean(e):
+    if isinstance(e, str):
+        if e in ("s", "e", "L"):
+            return e
+        raise NotTraceable(e)
+    tag = e[0]
+    if tag == "int":
+        return f"({e[1]} : Int)"
+    if tag == "const":
+        own = (_TRACE_SIZES["c1"], _TRACE_SIZES["c0"])
+        if e[1] == own:
+            return "own"
+        if e[1] == own[::-1]:
+            return "other"
+        return f"({e[1][0]} : Int)"
+    if tag in ("max", "min"):
+        return f"({tag} {_to_lean(e[1])} {_to_lean(e[2])})"
+    if tag in ("+", "-"):
+        return f"({_to_lean(e[1])} {tag} {_to_lean(e[2])})"
+    if tag == "where":
+        c = e[1]
+        if c[0] == "==" and c[1] == "strand" and c[2] in (("str", "+"), ("str", "-")):
+            cond = "fwd = true" if c[2][1] == "+" else "fwd = false"
+            return f"(if {cond} then {_to_lean(e[2])} else {_to_lean(e[3])})"
+    raise NotTraceable(str(e)[:60])
+
+
+def _tabulate_flanks():
+    """observed (left, right) flank of get_windows far from the chromosome ends"""
+    import bionumpy as bnp
+    from bionumpy.datatypes import LocationEntry
+    G = bnp.Genome.from_dict({"c0": 1000})
+    loc = G.get_locations(LocationEntry(["c0"], [500]))
+    fl, ws = [], []
+    for f in range(0, 7):
+        w = loc.get_windows(flank=f)
+        fl.append((f, 500 - int(w.start[0]), int(w.stop[0]) - 500))
+    for k in range(1, 13):
+        w = loc.get_windows(window_size=k)
+        ws.append((k, 500 - int(w.start[0]), int(w.stop[0]) - 500))
+    return fl, ws
+
+
+_FALLBACK = {"clipGenome": ("(max (0 : Int) s)", "(min own e)"), "clipGeometry": ("(max (0 : Int) s)", "(min own e)"),
+             "extendGeometry": ("(if fwd = true then s else (max (e - L) (0 : Int)))", "(if fwd = true then (min (s + L) own) else e)")}
+_TRACED = []
+
+
+def regenerate():
+    tr = _trace_kernels()
+    fl, ws = _tabulate_flanks()
+    _TRACED[:] = [k for k, v in tr.items() if v is not None]
+    out = ["/-! GENERATED on every run by harness/props/c10.py from the package imported from /repo: symbolic traces of the real",
+           "`clip` / `extend_to_size` kernels (executed on symbolic columns; `own` = the size the code looked up for the row's own",
+           "chromosome, `other` = the size of the other row's chromosome) and the observed window flanks. Do not edit. -/",
+           "namespace Gen.C10", ""]
+    for name in ("clipGenome", "clipGeometry", "extendGeometry"):
+        a, b = tr[name] if tr[name] is not None else _FALLBACK[name]
+        out.append(f"def {name}S (s e L own other : Int) (fwd : Bool) : Int := {a}")
+        out.append(f"def {name}E (s e L own other : Int) (fwd : Bool) : Int := {b}")
+    out.append("/-- kernels that were really traced this run (the others fall back to the hand model's formula) -/")
+    out.append("def traced : List String := [" + ", ".join(f'"{k}"' for k in _TRACED) + "]")
+    out.append("def flankTable : List (Nat × Int × Int) := [" + ", ".join(f"({a}, {b}, {c})" for a, b, c in fl) + "]")
+    out.append("def wsizeTable : List (Nat × Int × Int) := [" + ", ".join(f"({a}, {b}, {c})" for a, b, c in ws) + "]")
+    out += ["", "end Gen.C10", ""]
+    return [("BnpVerif/Gen/C10.lean", "\n".join(out))]
+
+
+def extra_evidence():
+    return {"traced_kernels": list(_TRACED)}
 
 
 # ------------------------------------------------------------------ helpers shared by impl (names) and generators
@@ -495,6 +671,7 @@ def _pair_cases(top):
 
 
 def cases(tier, rng):
+    _tmpdir()            # created in the parent, before the worker pool forks, so that the parent removes it at exit
     big = tier in ("thorough", "widen")
     # 0. the design-round expectations, stated as plain cases (rediscovered by the comparison, not assumed)
     yield {"op": "merge", "via": "geometry", "names": ["chr1", "chr2"], "sizes": [5, 5], "filt": True,
